@@ -107,6 +107,7 @@ def schedule_post(old, s, result, cap):
 
 @contract(HB_PROM + ":PromotionRungSystem.on_task_schedule", props=("C04",))
 class Prom_on_task_schedule:
+    spec_total = False  # the exists/forall clauses are discharged per path
     params = dict(self=Obj("PromotionRungSystem"), new_trial_id=Str)
     proof_shapes = [{"self._rungs": k} for k in range(0, 3)]
     shapes = [{"self._rungs": 1, "*": n} for n in range(0, 4)] + [{"self._rungs": 2, "*": n} for n in range(0, 3)]
@@ -124,6 +125,7 @@ class Pasha_on_task_schedule:
     """PASHA inherits on_task_schedule; the effective maximum is the current (growing) cap"""
 
     label = "PASHARungSystem.on_task_schedule"
+    spec_total = False
     params = dict(self=Obj("PASHARungSystem"), new_trial_id=Str)
     proof_shapes = [{"self._rungs": k} for k in range(1, 3)]
     shapes = [{"self._rungs": 1, "*": n} for n in range(0, 4)] + [{"self._rungs": 2, "*": n} for n in range(0, 3)] + [{"self._rungs": 3, "*": 1}]
